@@ -25,13 +25,16 @@ def candidates(rng, n):
     for E in SC.dictionary(1):
         if not any(v["def"] for v in E["variants"]):
             base.append(E)
+    ndict = len(base)
     for k in range(n):
         E = SC.sample_def(rng, 0, nmax=6, default_ok=False, perr=False)
         if E["generics"] == "none" and k % 5 == 0:
             # disabled + default: the variant is removed, the enum still has no (effective) default variant
             E["variants"].insert(rng.randint(0, len(E["variants"])), variant("Legacy", "tuple", [field("String")], default=True, dis=True))
         base.append(E)
-    for E in base:
+    for bi, E in enumerate(base):
+        if bi == ndict:
+            did = max(did, 2001)      # the ids of the sampled definitions do not depend on how long the dictionary has grown
         fieldless = E["generics"] == "none" and all(v["kind"] == "unit" for v in E["variants"])
         for perr in (True, False):
             for phf in ((False, True) if fieldless else (False,)):
